@@ -57,8 +57,25 @@ func runC18(out io.Writer) {
 			fixed--
 			extraMax = 3
 		}
-		for extra := 0; extra <= extraMax; extra++ {
+		// argument shapes: plain names, then calls of wrappers (of the same family and of others), a generic function call,
+		// a literal and a bound value in every expression position - a wrapper passes its arguments on whatever they are
+		shapes := []func(name string) builder.Exp{
+			func(name string) builder.Exp { return qrb.N(name) },
+			func(name string) builder.Exp { return qrb.Greatest(qrb.N(name), qrb.N(name+"lo")) },
+			func(name string) builder.Exp { return qrb.Least(qrb.N(name), qrb.N(name+"hi")) },
+			func(name string) builder.Exp { return qrb.Coalesce(qrb.N(name), qrb.Int(0)) },
+			func(name string) builder.Exp { return qrb.NullIf(qrb.N(name), qrb.Int(0)) },
+			func(name string) builder.Exp { return qrb.Func("f", qrb.N(name)) },
+			func(name string) builder.Exp { return qrb.String(name) },
+			func(name string) builder.Exp { return qrb.N(name).Plus(qrb.Int(1)) },
+		}
+		for variant := 0; variant < (extraMax+1)*len(shapes); variant++ {
+			extra, shape := variant%(extraMax+1), shapes[variant/(extraMax+1)]
+			if variant/(extraMax+1) > 0 && fixed+extra == 0 {
+				continue
+			}
 			c := c18Case{ID: id, Kind: "func", Name: f.Name, NArgs: fixed + extra}
+			var genericArgs []builder.Exp
 			id++
 			func() {
 				defer func() {
@@ -78,11 +95,15 @@ func runC18(out io.Writer) {
 					name := fmt.Sprintf("arg%d", j+1)
 					switch {
 					case pt == expT:
-						in = append(in, reflect.ValueOf(builder.Exp(qrb.N(name))))
-						c.ArgText = append(c.ArgText, name)
+						a := shape(name)
+						in = append(in, reflect.ValueOf(a))
+						txt, _ := plainSQL(a)
+						c.ArgText = append(c.ArgText, txt)
+						genericArgs = append(genericArgs, a)
 					case pt.Kind() == reflect.String:
 						in = append(in, reflect.ValueOf(name))
 						c.ArgText = append(c.ArgText, name)
+						genericArgs = append(genericArgs, qrb.N(name))
 					default:
 						ok = false
 					}
@@ -131,10 +152,7 @@ func runC18(out io.Writer) {
 				// generic constructor with the symbol as emitted
 				if i := strings.IndexByte(c.SQL, '('); i > 0 {
 					sym := c.SQL[:i]
-					var args []builder.Exp
-					for _, a := range c.ArgText {
-						args = append(args, qrb.N(a))
-					}
+					args := genericArgs
 					var g builder.SQLWriter
 					switch c.Result {
 					case "builder.AggExpBuilder":
